@@ -13,6 +13,7 @@ import html
 import itertools
 import re
 from .common import *
+import re
 
 RULE = ("(i) exhaustive product, both tiers: six formatter names x per option "
         "{absent, every accepted value, bogus value, bogus then accepted, accepted then another accepted} x both orders "
@@ -264,6 +265,34 @@ def check_references(ctx, binp):
                             "why": "a key written `$t(target)` renders what the target renders: the target's `{{ v, %s }}` keeps its formatter and options" % clause,
                             "harness": "parser_h pipeline"})
                         return
+
+
+def check_format_views(ctx):
+    """`t_format!` views follow the context: made under one locale, rendered after `set_locale`, they are formatted for the new one"""
+    binc = cargo_build(ctx, "ctx_h")
+    if binc is None:
+        return
+    locs = ["en", "en-US", "fr", "fr-CA", "de"]
+    reqs = [{"op": "format_views", "from": a, "to": b} for a in locs for b in locs if a != b]
+    outs = run_lines_resilient(binc, reqs)
+    for q, r in zip(reqs, outs):
+        ctx.seen(q, nontrivial=True)
+        ctx.count("format_view_switch")
+        if "after" not in r:
+            report_violation(ctx, "format-view:panics", {"case": q, "impl": r})
+            continue
+        strip = lambda t: re.sub(r"<!--.*?-->|<!>", "", t)
+        if strip(r["before"]) != r["expected_before"]:
+            report_violation(ctx, "format-view:wrong-before-switch", {"case": q, "expected_by_spec": r["expected_before"], "implementation": r["before"]})
+            continue
+        for k, exp in r["expected_after"].items():
+            got = strip(r["after"][k])
+            if got != exp:
+                report_violation(ctx, "format-view:not-following-locale", {
+                    "case": q, "what": k, "expected_by_spec": exp, "implementation": got,
+                    "why": "the value is formatted for the locale the context shows when the view is rendered / the string is made (reference: td_format_string! with that locale)",
+                    "harness": "ctx_h format_views"})
+                break
 
 
 # ----------------------------------------------------------------------------- documentation
@@ -686,6 +715,7 @@ def run(ctx):
         raise HarnessError("fmt_h locales differ from the check's: " + json.dumps(locs[0]))
     check_selection(ctx, binp)
     check_references(ctx, binp)
+    check_format_views(ctx)
     check_docs(ctx)
     table, table_opts = check_formatting(ctx, binf, binp)
     pool = check_history(ctx, binf, table, table_opts)
